@@ -1,4 +1,5 @@
-import Fv.Lemmas.SyncMutexInv2
+import Fv.Lemmas.SyncMutexQuiet
+import Fv.Lemmas.SyncRwProps
 /-!
 # C10 — hybrid locks: mutual exclusion, wake on release, cancel-safe acquisition
 
@@ -10,6 +11,12 @@ any interleaving of thread steps (`Mutex.next`), for any spin / poll budgets `cf
 Theorems here (helpers in `Fv/Lemmas/Sync*.lean`):
 * (a) `mutex_mutual_exclusion`, `mutex_locked_iff_held` — a holder excludes every other holder;
 * (b) `mutex_try_lock_bounded` — `try_lock` is straight-line: ≤ 3 own steps, never parks/spins;
+* (c) `mutex_no_lost_wakeup` — NO LOST WAKEUP, safety form: whenever a thread is parked without a
+  token (or a polled future is Pending with no wake recorded) and the lock is free, the queue is
+  non-empty and its head is covered: a `wake_next` is in flight (a releaser that read `HAS_QUEUED`,
+  or a dropping `WOKEN` future before its forwarding call), or the head is `WOKEN` with an awake
+  owner / an undelivered handle, or the head's owner is in its own re-check phase; corollary
+  `mutex_quiescent_no_blocked_waiter`; `mutex_woken_node_accounted` (wake conservation);
 * (d) `mutex_list_wf`, `mutex_queued_node_has_live_owner`, `mutex_list_lock_exclusive` — the wait
   list is exactly the set of linked nodes (no duplicates, counters exact) in every reachable
   state, whatever futures are dropped and whenever; every queued node belongs to a waiter that is
@@ -17,7 +24,10 @@ Theorems here (helpers in `Fv/Lemmas/Sync*.lean`):
   so no wake ever touches a freed node; list critical sections exclude each other.
 -/
 namespace Fv.Props.C10
-open Fv.Sync Fv.Sync.Mutex
+open Fv.Sync
+
+section MutexTheorems
+open Fv.Sync.Mutex
 
 /-! ## HybridMutex -/
 
@@ -124,5 +134,237 @@ theorem parked_state_reachable :
 example : ∃ s, Reach {} s ∧ s.holders ≠ [] := by
   obtain ⟨s, hr, _, _, _, _, hh⟩ := parked_state_reachable
   exact ⟨s, hr, by rw [hh]; simp⟩
+
+
+/-! ### (c) no lost wakeup -/
+
+/-- a thread parked without a token: a sync waiter in `lock_slow`'s park loop, or the harness
+executor of a `lock_async` future that returned `Pending` -/
+def ParkedBlocked (s : State) (u : Tid) : Prop :=
+  ((s.th u).pc = .wPark ∨ (s.th u).pc = .boPark) ∧ s.token u = false
+
+/-- a manually polled future that returned `Pending` (its node is allocated), is not being polled
+or dropped right now, and has no wake recorded since its last poll -/
+def PendingBlocked (s : State) (f : Fid) : Prop :=
+  (s.fut f).phase = .startedNode ∧ (s.fut f).busy = false ∧ s.wakes f = 0
+
+/-- (c) NO LOST WAKEUP (safety form).  In every reachable state in which the lock is free and some
+waiter is blocked, the wait queue is non-empty and its head `hd` is covered:
+* some thread is inside a `wake_next` that has not yet marked the head - it released the lock by
+  the `fetch_and` that read `HAS_QUEUED`, or it is dropping a future whose node is `WOKEN` and has
+  not yet made the forwarding call (`PreWake`); or
+* `hd` is `WOKEN` and its owner is not blocked (awake thread / token present / wake recorded / being
+  polled), or the handle that unblocks it is still carried by the waker (`PostWake`); or
+* the owner of `hd` is itself in its acquisition / arm-and-re-check phase (`OwnerActive`).
+Each of these threads has an enabled step, so a wake is always owed. -/
+theorem mutex_no_lost_wakeup {cfg : Cfg} {s : State} (hr : Reach cfg s) (hfree : s.word.locked = false)
+    (hb : (∃ u, ParkedBlocked s u) ∨ (∃ f, PendingBlocked s f)) :
+    ∃ hd rest, s.wl.queue = hd :: rest ∧
+      ((∃ t, PreWake s t)
+        ∨ ((s.wl.node hd).woken = true ∧ (¬ OwnerBlocked s hd ∨ ∃ t, PostWake s t hd))
+        ∨ OwnerActive s hd) := by
+  obtain ⟨hi, hw⟩ := WInv_reach hr
+  have hne : ∃ n, n ∈ s.wl.queue := by
+    rcases hb with ⟨u, hp, _⟩ | ⟨f, hph, hbz, _⟩
+    · exact ⟨_, (hi.wf.linked _).1 (hw.pk u (by rcases hp with hp | hp <;> simp [hp]))⟩
+    · exact ⟨_, (hi.wf.linked _).1 (hw.fl f hph hbz)⟩
+  obtain ⟨n, hn⟩ := hne
+  cases hq : s.wl.queue with
+  | nil => rw [hq] at hn; cases hn
+  | cons hd rest =>
+    refine ⟨hd, rest, rfl, ?_⟩
+    have hh : s.wl.queue.head? = some hd := by rw [hq]; rfl
+    rcases hw.nlw hfree hd hh with h1 | h1 | h1
+    · exact Or.inl h1
+    · have hl : (s.wl.node hd).linked = true := (hi.wf.linked hd).2 (by rw [hq]; exact List.mem_cons_self)
+      exact Or.inr (Or.inl ⟨h1, hw.wk hd hl h1⟩)
+    · exact Or.inr (Or.inr h1)
+
+/-- (c)/(d) WAKE CONSERVATION: a queued node that has been marked `WOKEN` is always accounted for -
+its owner is not blocked, or the waker still carries the handle that unblocks it.  Together with
+`PreWake` covering a dropping `WOKEN` future this is: a consumed wake is used or forwarded. -/
+theorem mutex_woken_node_accounted {cfg : Cfg} {s : State} (hr : Reach cfg s) {n : Nid}
+    (hq : n ∈ s.wl.queue) (hwk : (s.wl.node n).woken = true) :
+    ¬ OwnerBlocked s n ∨ ∃ t, PostWake s t n := by
+  obtain ⟨hi, hw⟩ := WInv_reach hr
+  exact hw.wk n ((hi.wf.linked n).2 hq) hwk
+
+/-- (d) a future dropped while its node is `WOKEN` is, from the moment the drop starts until its
+forwarding `wake_next` has marked the next head, a `PreWake` thread (so the wake it consumed keeps
+covering the queue, see `mutex_no_lost_wakeup`); the step after its `state.load` enters `wake_next`. -/
+theorem mutex_drop_woken_forwards {cfg : Cfg} {s s' : State} {t : Tid} {l : Lbl}
+    (h : (l, s') ∈ next cfg s t) (hpc : (s.th t).pc = .dLoad)
+    (hwk : (s.wl.node (.fut (curF (s.th t)))).woken = true) :
+    (s'.th t).pc = .llSwap .wakeNext ∧ PreWake s' t := by
+  have hs := step_of_mem h
+  cases hs <;> simp_all [withPc, setTh, PreWake, preWakePc]
+
+/-- no thread has an enabled step other than a spurious return from `park` -/
+def Quiescent (cfg : Cfg) (s : State) : Prop := ∀ t l s', (l, s') ∈ next cfg s t → l = .parkSpur
+
+/-- (c) corollary, QUIESCENT DEADLOCK FREEDOM: in a reachable state in which no thread can take a
+step (spurious park returns aside), the lock is free, and the executor has served every recorded
+wake (no idle Pending manual future has `wakes > 0` - the one thing the lock cannot do itself is
+re-poll a woken task), nobody is waiting: the queue is empty, no thread is parked, no future is
+Pending. -/
+theorem mutex_quiescent_no_blocked_waiter {cfg : Cfg} {s : State} (hr : Reach cfg s)
+    (hq : Quiescent cfg s) (hfree : s.word.locked = false)
+    (hexec : ∀ g, (s.fut g).bo = false → (s.fut g).phase = .startedNode → (s.fut g).busy = false → s.wakes g = 0) :
+    s.wl.queue = [] ∧ (∀ u, ¬ ParkedBlocked s u) ∧ (∀ f, ¬ PendingBlocked s f) := by
+  obtain ⟨hi, hw⟩ := WInv_reach hr
+  obtain ⟨hwn, hbe⟩ := extra_reach hr
+  have stuck : ∀ t, (∃ l s', (l, s') ∈ next cfg s t ∧ l ≠ .parkSpur) → False := by
+    rintro t ⟨l, s', hm, hne⟩; exact hne (hq t l s' hm)
+  have hempty : s.wl.queue = [] := by
+    cases hqe : s.wl.queue with
+    | nil => rfl
+    | cons hd rest =>
+      exfalso
+      have hh : s.wl.queue.head? = some hd := by rw [hqe]; rfl
+      have hl : (s.wl.node hd).linked = true := (hi.wf.linked hd).2 (by rw [hqe]; exact List.mem_cons_self)
+      have act : ∀ u, activePc (s.th u).pc = true → False := fun u ha =>
+        stuck u (runnable_enabled (by cases hp : (s.th u).pc <;> rw [hp] at ha <;> first | rfl | cases ha))
+      have pre : ∀ u, PreWake s u → False := by
+        intro u hp
+        refine stuck u (runnable_enabled ?_)
+        rcases hp with hp | ⟨hp, _⟩ <;> cases hpc : (s.th u).pc <;> rw [hpc] at hp <;> first | rfl | cases hp
+      have post : ∀ u n, PostWake s u n → False := by
+        rintro u n ⟨hp, w, hw0, _⟩
+        cases hpc : (s.th u).pc <;> rw [hpc] at hp <;> try (cases hp)
+        · exact stuck u (runnable_enabled (by rw [hpc]; rfl))
+        · obtain ⟨v, hv⟩ := hwn u hpc
+          exact stuck u (wnWake_enabled hpc hv)
+      rcases hw.nlw hfree hd hh with ⟨u, hu⟩ | hwk | ⟨u, _, hu⟩
+      · exact pre u hu
+      · rcases hw.wk hd hl hwk with hnb | ⟨u, hu⟩
+        · apply hnb
+          cases hd with
+          | thr v =>
+            obtain ⟨_, hsl⟩ := hi.thrNode v hl
+            by_cases hp : (s.th v).pc = .wPark
+            · refine ⟨hp, ?_⟩
+              cases htk : s.token v with
+              | false => rfl
+              | true => exact (stuck v (park_enabled (Or.inl hp) htk)).elim
+            · exfalso
+              refine stuck v (runnable_enabled ?_)
+              cases hpc : (s.th v).pc <;> rw [hpc] at hsl hp <;> first | rfl | exact absurd rfl hp | cases hsl
+          | fut g =>
+            have hph := hi.futNode g hl
+            cases hbo : (s.fut g).bo with
+            | true =>
+              simp only [OwnerBlocked, hbo, ↓reduceIte]
+              have hbusy : (s.fut g).busy = true := by
+                rcases hw.bb g hbo with h1 | h1
+                · exact h1
+                · rw [hph] at h1; cases h1
+              obtain ⟨v, hc, hp⟩ := hbe g hbusy
+              by_cases hpb : (s.th v).pc = .boPark
+              · refine ⟨v, hc, hpb, ?_⟩
+                cases htk : s.token v with
+                | false => rfl
+                | true => exact (stuck v (park_enabled (Or.inr hpb) htk)).elim
+              · exfalso
+                refine stuck v (runnable_enabled ?_)
+                cases hpc : (s.th v).pc <;> rw [hpc] at hp hpb <;> first | rfl | exact absurd rfl hpb | cases hp
+            | false =>
+              simp only [OwnerBlocked, hbo, Bool.false_eq_true, ↓reduceIte]
+              have hnb : (s.fut g).busy = false := by
+                cases hbz : (s.fut g).busy with
+                | false => rfl
+                | true =>
+                  exfalso
+                  obtain ⟨v, hc, hp⟩ := hbe g hbz
+                  have hbk : (s.th v).pc ≠ .boPark := by
+                    intro hpb
+                    have := hw.boPark v hpb
+                    rw [hw.boc v g hc hp, hbo] at this; cases this
+                  refine stuck v (runnable_enabled ?_)
+                  cases hpc : (s.th v).pc <;> rw [hpc] at hp hbk <;> first | rfl | exact absurd rfl hbk | cases hp
+              exact ⟨hnb, hexec g hbo hph hnb⟩
+        · exact post u hd hu
+      · exact act u hu
+  refine ⟨hempty, ?_, ?_⟩
+  · intro u ⟨hp, _⟩
+    have := (hi.wf.linked _).1 (hw.pk u (by rcases hp with hp | hp <;> simp [hp]))
+    rw [hempty] at this; cases this
+  · intro f ⟨hph, hbz, _⟩
+    have := (hi.wf.linked _).1 (hw.fl f hph hbz)
+    rw [hempty] at this; cases this
+
+end MutexTheorems
+
+/-! ## HybridRwLock -/
+
+section RwLockTheorems
+open Fv.Sync.RwLock
+
+/-- (a) MUTUAL EXCLUSION: in every reachable state a write holder excludes every other holder
+(read guards may coexist, see `rwlock_reader_count`). -/
+theorem rwlock_mutual_exclusion {cfg : RwLock.Cfg} {s : RwLock.State} (hr : RwLock.Reach cfg s) :
+    ∀ g ∈ s.holders, g.2 = true → s.holders = [g] := RwLock.mutual_exclusion hr
+
+/-- (a) while `WRITE_LOCKED` is clear every guard is a read guard and the reader count of the state
+word is exactly the number of read guards. -/
+theorem rwlock_reader_count {cfg : RwLock.Cfg} {s : RwLock.State} (hr : RwLock.Reach cfg s)
+    (hl : s.word.wl = false) : (∀ g ∈ s.holders, g.2 = false) ∧ s.holders.length = s.word.readers :=
+  RwLock.reader_count hr hl
+
+/-- (b) `try_read` / `try_write` are straight-line: ≤ 3 own steps, never park / yield / spin. -/
+theorem rwlock_try_bounded {cfg : RwLock.Cfg} {s s' : RwLock.State} {t : Tid} {l : RwLock.Lbl}
+    (h : (l, s') ∈ RwLock.next cfg s t) :
+    ((l = .call .tryRead ∨ l = .call .tryWrite) → RwLock.tryRank (s'.th t).pc = 3)
+    ∧ (0 < RwLock.tryRank (s.th t).pc →
+        l ≠ .park ∧ l ≠ .parkSpur ∧ l ≠ .yield ∧ l ≠ .spin
+          ∧ RwLock.tryRank (s'.th t).pc < RwLock.tryRank (s.th t).pc)
+    ∧ (∀ u, u ≠ t → s'.th u = s.th u) := RwLock.try_bounded h
+
+/-- (d) the wait-list invariant holds in every reachable state (wake_waiters unlinking other
+threads' reader nodes, future drops before / after a wake included). -/
+theorem rwlock_list_wf {cfg : RwLock.Cfg} {s : RwLock.State} (hr : RwLock.Reach cfg s) : s.wl.WF :=
+  RwLock.list_wf hr
+
+/-- (d) no dangling node: a queued stack node belongs to a thread inside `read_slow`/`write_slow`,
+a queued heap node to a live future whose node is allocated. -/
+theorem rwlock_queued_node_has_live_owner {cfg : RwLock.Cfg} {s : RwLock.State} (hr : RwLock.Reach cfg s) :
+    ∀ n ∈ s.wl.queue,
+      match n with
+      | .thr t => (s.th t).cur = none ∧ RwLock.slowL (s.th t).pc = true
+      | .fut f => (s.fut f).phase = .startedNode := by
+  have hi := RwLock.Inv_reach hr
+  intro n hn
+  have hl := (hi.wf.linked n).2 hn
+  cases n with
+  | thr t => exact ⟨(hi.thrNode t hl).1, (hi.thrNode t hl).2.1⟩
+  | fut f => exact hi.futNode f hl
+
+/-- (e) WRITER GATE, part 1: whenever no list critical section is open, `WRITER_PENDING` is set
+exactly while a writer node is queued. -/
+theorem rwlock_writer_pending_iff_writer_queued {cfg : RwLock.Cfg} {s : RwLock.State}
+    (hr : RwLock.Reach cfg s) (hl : s.wl.locked = false) :
+    s.word.wp = true ↔ ∃ n ∈ s.wl.queue, (s.wl.node n).isWriter = true := RwLock.wp_iff_writer_queued hr hl
+
+/-- (e) WRITER GATE, part 2: a read-acquiring CAS succeeds only from a state word with
+`WRITER_PENDING` and `WRITE_LOCKED` clear. -/
+theorem rwlock_reader_cas_needs_flag_clear {cfg : RwLock.Cfg} {s s' : RwLock.State} {t : Tid} {l : RwLock.Lbl}
+    (hr : RwLock.Reach cfg s) (h : (l, s') ∈ RwLock.next cfg s t) {w : Bool} {old new : Nat}
+    (hl : l = .cas .state w .acquire .relaxed old new true) (hw : (s.th t).wr = false) :
+    s.word.wp = false ∧ s.word.wl = false :=
+  ⟨(RwLock.reader_cas_needs_flag_clear hr h hl hw).1, (RwLock.reader_cas_needs_flag_clear hr h hl hw).2.1⟩
+
+/-- (e) WRITER NON-STARVATION, safety form: while a writer node is queued (and no list critical
+section is open) no reader can acquire the lock - every read-acquiring CAS fails. -/
+theorem rwlock_writer_gate {cfg : RwLock.Cfg} {s s' : RwLock.State} {t : Tid} {l : RwLock.Lbl}
+    (hr : RwLock.Reach cfg s) (hl : s.wl.locked = false) {n : Nid} (hn : n ∈ s.wl.queue)
+    (hnw : (s.wl.node n).isWriter = true) (h : (l, s') ∈ RwLock.next cfg s t) (hw : (s.th t).wr = false)
+    {w : Bool} {old new : Nat} : l ≠ .cas .state w .acquire .relaxed old new true :=
+  RwLock.writer_gate hr hl hn hnw h hw
+
+/-- (e) `HAS_QUEUED` is set exactly while the queue is non-empty (no list critical section open). -/
+theorem rwlock_has_queued_iff_nonempty {cfg : RwLock.Cfg} {s : RwLock.State}
+    (hr : RwLock.Reach cfg s) (hl : s.wl.locked = false) : s.word.hq = true ↔ s.wl.queue ≠ [] :=
+  RwLock.hq_iff_nonempty hr hl
+
+end RwLockTheorems
 
 end Fv.Props.C10
